@@ -797,7 +797,8 @@ class ExcelCompiler:
             self._gen_graph(address)
             cell_range = self.cell_map[address]
 
-        if cell_range.needs_calc:
+        if cell_range.needs_calc or (
+                self.cycles and not iterative_eval_tracker.is_calced(cell_range)):
             self.log.debug(f"Evaluating: {cell_range.address}, {cell_range.python_code}")
             if cell_range.address.is_unbounded_range:
                 bounded_addr = str(self.eval(cell_range))
@@ -820,6 +821,8 @@ class ExcelCompiler:
             self.log.info(f"Range {cell_range.address} evaluated to '{data}'")
 
             cell_range.value = data
+            if self.cycles:
+                iterative_eval_tracker.calced(cell_range)
 
         return cell_range.value
 
